@@ -26,7 +26,7 @@ try:
         r = subprocess.run(['git', '-C', wt, 'apply', d + '/patch.diff'])
         if r.returncode != 0:
             rows.append((mid, prop, 'PATCH-FAILS', [])); continue
-        env = dict(os.environ, VERIF_REPO=wt)
+        env = dict(os.environ, VERIF_REPO=wt, VERIF_EVIDENCE_DIR='/tmp/verif-evidence-scratch')
         out = subprocess.run(['./check', '--property', prop, '-v'], cwd='/verif', env=env, stdout=subprocess.PIPE, stderr=subprocess.STDOUT, text=True).stdout
         subprocess.run('git -C %s checkout -- . ":!*zz_verif_*"' % wt, shell=True)
         viol = re.findall(r'^    (\S+) -- (.*)$', out, re.M)
